@@ -22,7 +22,9 @@ Comparison discipline
   first occurrence for idx*).
 * describe: only the rows count/mean/std/min/max that pandas produces are compared; a wanted row that is absent
   from the dask result is the symptom `rows`.
-* dtype facet is restricted to non-empty frames (pandas leaves the dtype of an empty reduction unspecified).
+* dtype facet is restricted to non-empty frames and to results holding at least one non-missing value (pandas
+  leaves the dtype of an empty / all-missing reduction to the accident of its code path, e.g. Float64 for an Int64
+  sum whose min_count is not met).
 
 Labels: `<op family>:<causal features>:<symptom>`.  The features are found by ablation: the failing description
 is re-run with one feature removed at a time (single column, nullable column cast to float64, series<->frame,
@@ -72,13 +74,16 @@ RULE = ("cases = (frame seed/rows/index kind, partitioning description, operatio
         "non-trivial = at least 2 partitions and 2 rows; distinct = distinct description.")
 ASSUMPTIONS = ["pandas 3.0.5 on the concatenated frame defines the expected value", "sync scheduler",
                "python-backed str dtype (pyarrow import stub); Arrow strings are not exercised"]
-BUDGET = {"quick": 45, "thorough": 420}
+BUDGET = {"quick": 60, "thorough": 420}
 FLOORS = {
     "quick": {"evaluations": 2900, "distinct_nontrivial": 2400, "max_skipped_fraction": 0.3,
               "counters": {"compared": 2700, "dtype_facet_checked": 2700, "empty_part": 750, "allna_part": 900,
                            "single_row_part": 1400, "skipna_false": 650, "tree": 1500, "axis1": 130},
               "sets": {"op_options": 480, "partition_shapes": 600}},
-    "thorough": {"evaluations": 10, "distinct_nontrivial": 5},
+    "thorough": {"evaluations": 24000, "distinct_nontrivial": 19000, "max_skipped_fraction": 0.3,
+                 "counters": {"compared": 23000, "dtype_facet_checked": 22000, "empty_part": 6800, "allna_part": 4300,
+                              "single_row_part": 10000, "skipna_false": 4200, "tree": 8800, "axis1": 1700},
+                 "sets": {"op_options": 1300, "partition_shapes": 4600}},
 }
 EXHAUSTIVE_SPACE = {
     "quick": ("fixed 6-row frame: all 32 compositions into non-empty consecutive partitions + all weak compositions "
@@ -202,6 +207,20 @@ PENDING = {
         "R6: var/std/sem of a frame holding a nullable column: TypeError on pd.NA (values.astype('f8')) or float64 instead of Float64",
     'var:skipna=False&split_every-tree&empty-partition:spurious-NA':
         'R1: var/std/sem skipna=False, tree reduction and an empty partition -> NaN (0/0 in moment_combine)',
+    'any/all:frame&nullable-column&skipna=False&all-NA-partition:ValueError@dataframe/dask_expr/_reductions.py:chunk':
+        'R6: any/all(skipna=False) with a nullable column raises / answers False where pandas answers <NA>',
+    'min/max:frame&skipna=False&split_every-tree&empty-partition:spurious-NA':
+        'R1: skipna=False and an empty partition -> NaN (chunk result of the empty partition poisons the combine)',
+    'min/max:multi-column&datetime-column&skipna=False&multi-partition:lost-NA':
+        'R2: skipna=False over object-dtype chunk rows (mixed column kinds) loses NaN / returns a wrong extreme',
+    'min/max:multi-column&nullable-column&empty-frame&skipna=False:TypeError@dataframe/dask_expr/_reductions.py:combine|aggregate':
+        "R6: skipna=False with a nullable column raises 'boolean value of NA is ambiguous' / meta inference fails",
+    'min/max:skipna=False&empty-partition:values':
+        'R2: skipna=False over object-dtype chunk rows (mixed column kinds) loses NaN / returns a wrong extreme',
+    'nunique:signed-zero&multi-partition:values':
+        'R10: -0.0 and +0.0 are hashed to different output partitions by drop_duplicates: nunique counts them twice',
+    'std:series&datetime-column&ddof>=count:TypeError@dataframe/utils.py:_nonempty_scalar':
+        "R7: std(ddof!=1) of a datetime column: meta is NaT -> 'Can't handle meta of type NaTType'",
 }
 
 SKIPNA_OPS = ("sum", "prod", "min", "max", "mean", "var", "std", "sem", "any", "all", "idxmin", "idxmax")
@@ -387,6 +406,8 @@ def _frame(case):
         pdf = _fixed_frame()
     else:
         pdf = F.rand_frame(case["seed"], nrows=case["nrows"], index=case["index"], cols="wide")
+    if case.get("poszero") and "c" in pdf:                # only used by the label ablation: -0.0 -> +0.0
+        pdf["c"] = pdf["c"] + 0.0
     for col, dt in (case.get("cast") or {}).items():     # only used by the label ablation
         pdf[col] = pdf[col].astype(dt)
     return pdf
@@ -497,7 +518,14 @@ def _facts(case, pdf, parts):
                 if p[c].isna().all() and not pdf[c].isna().all():
                     allna = True
     se = case.get("se")
-    return {"min_valid": int(min([pdf[c].notna().sum() for c in cols] or [0])), "n": len(pdf), "nparts": len(parts), "lens": lens, "empty_part": len(pdf) > 0 and 0 in lens,
+    sz = False
+    if "c" in cols and len(pdf):
+        import numpy as np
+
+        z = pdf["c"].to_numpy()
+        z = z[z == 0]
+        sz = bool(len(z) and np.signbit(z).any() and not np.signbit(z).all())
+    return {"signed_zero": sz, "min_valid": int(min([pdf[c].notna().sum() for c in cols] or [0])), "n": len(pdf), "nparts": len(parts), "lens": lens, "empty_part": len(pdf) > 0 and 0 in lens,
             "allna_part": allna, "single_row_part": 1 in lens,
             "tree": isinstance(se, int) and not isinstance(se, bool) and len(parts) > se}
 
@@ -601,11 +629,15 @@ def _cmp_pandas(r, e, ordered, check_dtype):
         mm = (_na_direction(pr, pe), mm[1])
     if mm or not check_dtype:
         return mm
+    # pandas leaves the dtype of an all-missing result to the accident of its code path: dtype facet only where
+    # the expected result holds at least one value
     if isinstance(e, pd.Series):
-        if _norm_dtype(r.dtype) != _norm_dtype(e.dtype):
+        if _norm_dtype(r.dtype) != _norm_dtype(e.dtype) and len(e) and not e.isna().all():
             return ("dtype", "dtype %s vs expected %s" % (r.dtype, e.dtype))
     else:
         for c in range(len(e.columns)):
+            if len(e) and e.iloc[:, c].isna().all():
+                continue
             if _norm_dtype(r.dtypes.iloc[c]) != _norm_dtype(e.dtypes.iloc[c]):
                 return ("dtype", "column %r dtype %s vs expected %s" % (e.columns[c], r.dtypes.iloc[c], e.dtypes.iloc[c]))
     return None
@@ -728,6 +760,29 @@ def _repro(v, symptom):
     except Exception:  # noqa: BLE001 - a variant the harness cannot build is "no repro"
         return False
     return o.status == "bad" and o.symptom == symptom
+
+
+def _gone(v, symptom):
+    """option ablation: True when removing the option removes the symptom.  A `dtype` symptom that disappears only
+    because the variant's expected result is all-missing (dtype facet not applicable) is not evidence."""
+    import pandas as pd
+
+    try:
+        o = _evaluate(v)
+    except Exception:  # noqa: BLE001
+        return True
+    if o.status == "bad" and o.symptom == symptom:
+        return False
+    if symptom == "dtype" and o.status == "ok":
+        e = o.expected
+        try:
+            if isinstance(e, (pd.Series, pd.DataFrame)) and (len(e) == 0 or bool(pd.isna(e).all(axis=None))):
+                return False
+            if not isinstance(e, (pd.Series, pd.DataFrame)) and bool(pd.isna(e)):
+                return False
+        except Exception:  # noqa: BLE001
+            pass
+    return True
 
 
 def _single(case, col):
@@ -863,6 +918,8 @@ def _attribute(case, out):
         fam = "rowwise" if _repro(_variant(cur, op="max", kw_min_count=_DROP), s) else fam
     if classes:
         feats.append("+".join(sorted(classes)) + "-column")
+    if out.facts.get("signed_zero") and not _repro(_variant(cur, poszero=True), s):
+        feats.append("signed-zero")          # the column holds both -0.0 and +0.0
     if out.facts["n"] == 0:
         v = _variant(cur, nrows=6, part={"how": "npartitions", "n": 1})
         if not cur.get("fixed") and _repro(v, s):
@@ -871,15 +928,15 @@ def _attribute(case, out):
             feats.append("empty-frame")
     # -- options
     kw = cur["kw"]
-    if kw.get("skipna") is False and not _repro(_variant(cur, kw_skipna=_DROP), s):
+    if kw.get("skipna") is False and _gone(_variant(cur, kw_skipna=_DROP), s):
         feats.append("skipna=False")
-    if kw.get("numeric_only") is True and not _repro(_variant(cur, kw_numeric_only=_DROP), s):
+    if kw.get("numeric_only") is True and _gone(_variant(cur, kw_numeric_only=_DROP), s):
         feats.append("numeric_only=True")
-    if kw.get("min_count") and not _repro(_variant(cur, kw_min_count=_DROP), s):
+    if kw.get("min_count") and _gone(_variant(cur, kw_min_count=_DROP), s):
         feats.append("min_count>0")
     oc = _evaluate(cur)
     facts = oc.facts or out.facts
-    if kw.get("ddof", 1) != 1 and not _repro(_variant(cur, kw_ddof=_DROP), s):
+    if kw.get("ddof", 1) != 1 and _gone(_variant(cur, kw_ddof=_DROP), s):
         feats.append("ddof>=count" if facts["min_valid"] <= kw["ddof"] else "ddof!=1")
     if "se" in cur and cur["se"] is not False and not _repro(_variant(cur, se=False), s):
         feats.append("split_every-tree")
